@@ -1,9 +1,16 @@
 #!/bin/bash
-# usage: mutcheck.sh <prop> <patch.diff> [tier]  — apply a seeded change to /repo, run the check, undo.
+# usage: mutcheck.sh <prop> <patch.diff> [tier]  — run a check against /repo's HEAD plus a seeded change.
+# The change is applied to a throw-away git worktree of /repo (VERIF_REPO), never to /repo itself, so
+# background sweeps that read /repo are not disturbed; build cache, evidence and replays of the run go
+# to a scratch directory (VERIF_DEVOUT). Worktree and scratch directory are removed afterwards.
+# Several of these may run at the same time.
 P=$1; D=$2; T=${3:-quick}
-cd /repo || exit 2
-if ! git diff --quiet; then echo "repo dirty"; exit 2; fi
-git apply "$D" || { echo "patch does not apply"; exit 2; }
-cd /verif && bin/check $P $T > /tmp/mutcheck.$P.log 2>&1; rc=$?
-git -C /repo checkout -- . ; git -C /repo clean -fdq
-echo "rc=$rc"; grep -E "^(violation class|VIOLATION|simcheck:|KNOWN)" /tmp/mutcheck.$P.log | head -12
+W=$(mktemp -d /tmp/mutwt.XXXXXX); O=$W.out; rmdir $W
+git -C /repo worktree add -q --detach $W HEAD || exit 2
+trap 'git -C /repo worktree remove --force $W 2>/dev/null; git -C /repo worktree prune; rm -rf $O' EXIT
+git -C $W apply "$D" || { echo "patch does not apply"; exit 2; }
+mkdir -p $O
+L=${MUTLOG:-/tmp/mutcheck.$P.log}
+cd /verif && VERIF_REPO=$W VERIF_DEVOUT=$O bin/check $P $T > $L.$$ 2>&1; rc=$?
+mv $L.$$ $L
+echo "rc=$rc"; grep -E "^(violation class|VIOLATION|simcheck:|KNOWN)" $L | head -12
